@@ -27,12 +27,17 @@
         coefficient without leading and trailing zeros — no superfluous digit
   * `string_denotes`           : the text read by the grammar of the specification is `±n·10^sc` with the sign
         of `d` and EXACTLY the value of `d`
-  * `string_roundtrip`, `marshalText_roundtrip` : `parse` of the text is a Decimal with the sign and value
-        of `d` and no error.  The parser's value theorem enters as hypothesis `hparse`
-        (= `Props.C05.parse_value g · op m hm`, D128/Props/C05Value.lean, which is being adapted to a change
-        of the Go source; the instantiation type-checks against its last built version).
+  * `string_roundtrip`, `marshalText_roundtrip` : `parse` (the common end of Parse, MustParse, UnmarshalText,
+        Scan) of the text is, without error, a Decimal with the sign and value of `d` (`Val.same`), for every
+        valid `DefaultRoundingMode` — unconditional (`Props.C05.parse_value` instantiated; the text has at most
+        12500 bytes)
+  * `string_roundtrip_equal`, `marshalText_roundtrip_equal` : the same with `Spec.equal` and equal sign bit
+        (also −0 and zeros with any exponent)
+  * `string_roundtrip_nan`, `string_roundtrip_inf`, `marshalText_roundtrip_nan`, `marshalText_roundtrip_inf` :
+        NaN / ±Inf print as `NaN` / `+Inf` / `-Inf`, which parse back to a NaN / the same infinity
 -/
 import D128.Proofs.EmitRound
+import D128.Proofs.EmitRoundFinal
 import D128.Proofs.EmitPad
 set_option autoImplicit false
 
@@ -310,28 +315,67 @@ example := string_denotes ex2 false 1234567890123456789012345678901234 (-40) ex2
 
 /-- **Text is a lossless interchange form.**  `parse` (the common end of Parse, MustParse, UnmarshalText and
 Scan) of `String d` returns, without error, a Decimal with the sign and the value of `d` (`Val.same`: equal
-as numbers, same sign also on zero) — in every rounding mode `m`.
-`hparse` is `fun s neg n sc hsz h => Props.C05.parse_value g s op m hm hsz neg n sc h`. -/
-theorem string_roundtrip (g : Globals) (op : UInt64) (m : Spec.Mode) (d : Gen.Decimal) (neg : Bool)
-    (c : Nat) (e : Int) (hfin : 𝔳[d] = .fin neg c e)
-    (hparse : ∀ (s : Go.Bytes) (neg : Bool) (n : Nat) (sc : Int), s.size + 6216 ≤ 2 ^ 58 →
-      Spec.readLiteral true true (chars s) = some (.num neg n sc) →
-      ∃ v err, Gen.parse g s op = .ok (v, err) ∧
-        (𝔳[v]).same (Spec.literalValue m neg n sc).1 = true ∧
-        err = (if (Spec.literalValue m neg n sc).2 then Go.Err.parseRangeError else Go.Err.nil)) :
+as numbers, same sign also on zero) — for every valid default rounding mode. -/
+theorem string_roundtrip (g : Globals) (op : UInt64) (m : Spec.Mode)
+    (hm : Spec.Mode.ofNat? g.DefaultRoundingMode.toNat = some m) (d : Gen.Decimal) (neg : Bool)
+    (c : Nat) (e : Int) (hfin : 𝔳[d] = .fin neg c e) :
     ∃ out v, Gen.Decimal.String d = .ok out ∧ Gen.parse g out op = .ok (v, Go.Err.nil) ∧
       (𝔳[v]).same (𝔳[d]) = true :=
-  Emit.string_parse_roundtrip g op m d neg c e hfin hparse
+  Emit.string_parse_rt g op m hm d neg c e hfin
 
-theorem marshalText_roundtrip (g : Globals) (op : UInt64) (m : Spec.Mode) (d : Gen.Decimal) (neg : Bool)
-    (c : Nat) (e : Int) (hfin : 𝔳[d] = .fin neg c e)
-    (hparse : ∀ (s : Go.Bytes) (neg : Bool) (n : Nat) (sc : Int), s.size + 6216 ≤ 2 ^ 58 →
-      Spec.readLiteral true true (chars s) = some (.num neg n sc) →
-      ∃ v err, Gen.parse g s op = .ok (v, err) ∧
-        (𝔳[v]).same (Spec.literalValue m neg n sc).1 = true ∧
-        err = (if (Spec.literalValue m neg n sc).2 then Go.Err.parseRangeError else Go.Err.nil)) :
+theorem marshalText_roundtrip (g : Globals) (op : UInt64) (m : Spec.Mode)
+    (hm : Spec.Mode.ofNat? g.DefaultRoundingMode.toNat = some m) (d : Gen.Decimal) (neg : Bool)
+    (c : Nat) (e : Int) (hfin : 𝔳[d] = .fin neg c e) :
     ∃ out v, Gen.Decimal.MarshalText d = .ok (out, Go.Err.nil) ∧
       Gen.parse g out op = .ok (v, Go.Err.nil) ∧ (𝔳[v]).same (𝔳[d]) = true :=
-  Emit.marshalText_parse_roundtrip g op m d neg c e hfin hparse
+  Emit.marshalText_parse_rt g op m hm d neg c e hfin
+
+/-- **C06, last sentence**: feeding the text of a finite `d` back yields a Decimal that is `Equal` to `d`
+(`Spec.equal`) with the same sign — also for −0 and for zeros with any exponent. -/
+theorem string_roundtrip_equal (g : Globals) (op : UInt64) (m : Spec.Mode)
+    (hm : Spec.Mode.ofNat? g.DefaultRoundingMode.toNat = some m) (d : Gen.Decimal) (neg : Bool)
+    (c : Nat) (e : Int) (hfin : 𝔳[d] = .fin neg c e) :
+    ∃ out v, Gen.Decimal.String d = .ok out ∧ Gen.parse g out op = .ok (v, Go.Err.nil) ∧
+      Spec.equal (𝔳[v]) (𝔳[d]) = true ∧ (𝔳[v]).neg = (𝔳[d]).neg ∧ (𝔳[v]).isFin = true :=
+  Emit.string_parse_equal g op m hm d neg c e hfin
+
+theorem marshalText_roundtrip_equal (g : Globals) (op : UInt64) (m : Spec.Mode)
+    (hm : Spec.Mode.ofNat? g.DefaultRoundingMode.toNat = some m) (d : Gen.Decimal) (neg : Bool)
+    (c : Nat) (e : Int) (hfin : 𝔳[d] = .fin neg c e) :
+    ∃ out v, Gen.Decimal.MarshalText d = .ok (out, Go.Err.nil) ∧
+      Gen.parse g out op = .ok (v, Go.Err.nil) ∧
+      Spec.equal (𝔳[v]) (𝔳[d]) = true ∧ (𝔳[v]).neg = (𝔳[d]).neg ∧ (𝔳[v]).isFin = true :=
+  Emit.marshalText_parse_equal g op m hm d neg c e hfin
+
+/-- negative zero with exponent 20, mode toNegInf (4) -/
+example := string_roundtrip_equal ⟨4⟩ 0 .toNegInf rfl ⟨0, 12711409948253224960⟩ true 0 20 (by decide)
+example := string_roundtrip_equal ⟨0⟩ 0 .nearestEven rfl ex2 false 1234567890123456789012345678901234 (-40)
+  ex2_val
+
+/-- NaN prints as `NaN`, which parses back to a NaN -/
+theorem string_roundtrip_nan (g : Globals) (op : UInt64) (d : Gen.Decimal) (n : Bool) (p : UInt64)
+    (h : 𝔳[d] = .nan n p) :
+    ∃ v, Gen.Decimal.String d = .ok (Go.str "NaN") ∧ Gen.parse g (Go.str "NaN") op = .ok (v, Go.Err.nil) ∧
+      (𝔳[v]).isNaN = true :=
+  Emit.string_parse_nan g op d n p h
+
+/-- ±Inf prints as `+Inf` / `-Inf`, which parses back to the same infinity -/
+theorem string_roundtrip_inf (g : Globals) (op : UInt64) (d : Gen.Decimal) (n : Bool) (h : 𝔳[d] = .inf n) :
+    ∃ out v, Gen.Decimal.String d = .ok out ∧ out = (if n then Go.str "-Inf" else Go.str "+Inf") ∧
+      Gen.parse g out op = .ok (v, Go.Err.nil) ∧ 𝔳[v] = 𝔳[d] :=
+  Emit.string_parse_inf g op d n h
+
+theorem marshalText_roundtrip_nan (g : Globals) (op : UInt64) (d : Gen.Decimal) (n : Bool) (p : UInt64)
+    (h : 𝔳[d] = .nan n p) :
+    ∃ v, Gen.Decimal.MarshalText d = .ok (Go.str "NaN", Go.Err.nil) ∧
+      Gen.parse g (Go.str "NaN") op = .ok (v, Go.Err.nil) ∧ (𝔳[v]).isNaN = true :=
+  Emit.marshalText_parse_nan g op d n p h
+
+theorem marshalText_roundtrip_inf (g : Globals) (op : UInt64) (d : Gen.Decimal) (n : Bool)
+    (h : 𝔳[d] = .inf n) :
+    ∃ out v, Gen.Decimal.MarshalText d = .ok (out, Go.Err.nil) ∧
+      out = (if n then Go.str "-Inf" else Go.str "+Inf") ∧
+      Gen.parse g out op = .ok (v, Go.Err.nil) ∧ 𝔳[v] = 𝔳[d] :=
+  Emit.marshalText_parse_inf g op d n h
 
 end Props.C06b
